@@ -22,17 +22,6 @@ def intShape : CExpr → Bool
   | .par x => intShape x
   | _ => false
 
-/-- every integer literal of the tree has at most 512 bits (the toolchain refuses longer ones, the interpreter
-    does not: F03-21) -/
-def litBound : CExpr → Bool
-  | .int v => decide (bitLen v ≤ 512)
-  | .un _ x => litBound x
-  | .bin _ x y => litBound x && litBound y
-  | .conv _ x => litBound x
-  | .par x => litBound x
-  | .len x => litBound x
-  | _ => true
-
 theorem isBoolAct_arith (a : Act) (h : (isArith a || isShift a) = true) : isBoolAct a = false := by
   cases a <;> simp [isArith, isShift] at h <;> rfl
 
@@ -53,21 +42,22 @@ theorem Rel.bind_un {r : Res NS} {g : Res Spec.GV} (h : Rel r g) (f : NS → Res
 
 /-- **one walk, both directions** (first walk, nothing pushed down) -/
 theorem evalY_int_rel (env : Env) (hp2 : env.pass2 = false) :
-    ∀ e, intShape e = true → litBound e = true → Rel (evalY F0 env none e) (Spec.evalGo env.iota e) := by
+    ∀ e, intShape e = true → Rel (evalY F0 env none e) (Spec.evalGo env.iota e) := by
   intro e
   induction e with
   | int v =>
-    intro _ hl
-    have hb : ¬ (bitLen v > Spec.maxUntypedBits) := by
-      simp only [litBound, decide_eq_true_eq] at hl; simp only [Spec.maxUntypedBits]; omega
-    simp only [Spec.evalGo, if_neg hb, evalY]
-    exact .ok _ _ (Inv.of_untyped _ _ _ (Or.inl rfl) rfl rfl)
+    intro _
+    -- a literal of more than 512 bits is refused by both sides (nodeType2 since 638fc07)
+    simp only [Spec.evalGo, evalY, F0_chk, Expected.C03.checkFacts, Spec.maxUntypedBits]
+    by_cases hb : bitLen v > 512
+    · simp only [hb, if_true]; exact .rej
+    · simp only [hb, if_false]; exact .ok _ _ (Inv.of_untyped _ _ _ (Or.inl rfl) rfl rfl)
   | rune v =>
-    intro _ _
+    intro _
     simp only [Spec.evalGo, evalY]
     exact .ok _ _ (Inv.of_untyped _ _ _ (Or.inr rfl) rfl rfl)
   | iota =>
-    intro _ _
+    intro _
     simp only [Spec.evalGo, evalY]
     exact .ok _ _ (Inv.of_untyped _ _ _ (Or.inl rfl) rfl rfl)
   | flt q => intro h; simp [intShape] at h
@@ -75,31 +65,28 @@ theorem evalY_int_rel (env : Env) (hp2 : env.pass2 = false) :
   | str s => intro h; simp [intShape] at h
   | len x _ => intro h; simp [intShape] at h
   | par x ih =>
-    intro hs hl
+    intro hs
     simp only [intShape] at hs
-    simp only [litBound] at hl
-    have h := ih hs hl
+    have h := ih hs
     simp only [Spec.evalGo, evalY]
     rcases h.inv with ⟨n, gv, hr, hg, hinv⟩ | ⟨hr, hg⟩
     · rw [hr, hg]; exact .ok _ _ ⟨hinv.1, hinv.2⟩
     · rw [hr, hg]; exact .rej
   | un a x ih =>
-    intro hs hl
+    intro hs
     simp only [intShape, Bool.and_eq_true] at hs
-    simp only [litBound] at hl
-    have h := ih hs.2 hl
+    have h := ih hs.2
     have hnot : (a == Act.not) = false := by
       have ha := hs.1
       cases a <;> simp [isUnArith] at ha <;> rfl
     simp only [Spec.evalGo, evalY, hnot, Bool.false_eq_true, if_false]
     exact h.bind_un _ _ (fun n gv hinv => unNode_rel a hs.1 n gv hinv)
   | conv t x ih =>
-    intro hs hl
+    intro hs
     cases t with
     | i k =>
       simp only [intShape] at hs
-      simp only [litBound] at hl
-      have h := ih hs hl
+      have h := ih hs
       simp only [Spec.evalGo, evalY, hp2, Bool.false_and, Bool.false_eq_true, if_false]
       exact h.bind_un _ _ (fun n gv hinv => convNode_rel k n gv hinv)
     | f32 => simp [intShape] at hs
@@ -107,11 +94,10 @@ theorem evalY_int_rel (env : Env) (hp2 : env.pass2 = false) :
     | bool => simp [intShape] at hs
     | str => simp [intShape] at hs
   | bin a x y ihx ihy =>
-    intro hs hl
+    intro hs
     simp only [intShape, Bool.and_eq_true] at hs
-    simp only [litBound, Bool.and_eq_true] at hl
-    have hx := ihx hs.1.2 hl.1
-    have hy := ihy hs.2 hl.2
+    have hx := ihx hs.1.2
+    have hy := ihy hs.2
     have hcl : (isCmpAct a || isLogicAct a) = false := by
       have ha := hs.1.1
       cases a <;> simp [isArith, isShift] at ha <;> rfl
@@ -154,10 +140,9 @@ theorem evalY_int_rel (env : Env) (hp2 : env.pass2 = false) :
     · rw [hx0, hg0]; exact .rej
 
 /-- the accepting direction, as the declaration theorems use it -/
-theorem evalY_int_correct (env : Env) (hp2 : env.pass2 = false) (e : CExpr) (hs : intShape e = true)
-    (hl : litBound e = true) (gv : Spec.GV) (hgo : Spec.evalGo env.iota e = .ok gv) :
+theorem evalY_int_correct (env : Env) (hp2 : env.pass2 = false) (e : CExpr) (hs : intShape e = true) (gv : Spec.GV) (hgo : Spec.evalGo env.iota e = .ok gv) :
     ∃ n, evalY F0 env none e = .ok n ∧ Inv n gv := by
-  have h := evalY_int_rel env hp2 e hs hl
+  have h := evalY_int_rel env hp2 e hs
   rw [hgo] at h
   cases hy : evalY F0 env none e with
   | ok n =>
@@ -170,9 +155,8 @@ theorem evalY_int_correct (env : Env) (hp2 : env.pass2 = false) (e : CExpr) (hs 
   | unm w => rw [hy] at h; rcases h.inv with ⟨_, _, hr, _, _⟩ | ⟨hr, _⟩ <;> cases hr
 
 /-- the rejecting direction -/
-theorem evalY_int_reject (env : Env) (hp2 : env.pass2 = false) (e : CExpr) (hs : intShape e = true)
-    (hl : litBound e = true) (hgo : Spec.evalGo env.iota e = .reject) : evalY F0 env none e = .reject := by
-  have h := evalY_int_rel env hp2 e hs hl
+theorem evalY_int_reject (env : Env) (hp2 : env.pass2 = false) (e : CExpr) (hs : intShape e = true) (hgo : Spec.evalGo env.iota e = .reject) : evalY F0 env none e = .reject := by
+  have h := evalY_int_rel env hp2 e hs
   rw [hgo] at h
   cases hy : evalY F0 env none e with
   | ok n => rw [hy] at h; rcases h.inv with ⟨_, _, _, hg, _⟩ | ⟨hr, _⟩ <;> first | cases hg | cases hr
@@ -181,9 +165,8 @@ theorem evalY_int_reject (env : Env) (hp2 : env.pass2 = false) (e : CExpr) (hs :
   | unm w => rw [hy] at h; rcases h.inv with ⟨_, _, hr, _, _⟩ | ⟨hr, _⟩ <;> cases hr
 
 /-- the specification never crashes and is total on the model's terms: it answers a value or a rejection -/
-theorem evalGo_int_total (env : Env) (hp2 : env.pass2 = false) (e : CExpr) (hs : intShape e = true)
-    (hl : litBound e = true) : (∃ gv, Spec.evalGo env.iota e = .ok gv) ∨ Spec.evalGo env.iota e = .reject := by
-  have h := evalY_int_rel env hp2 e hs hl
+theorem evalGo_int_total (env : Env) (hp2 : env.pass2 = false) (e : CExpr) (hs : intShape e = true) : (∃ gv, Spec.evalGo env.iota e = .ok gv) ∨ Spec.evalGo env.iota e = .reject := by
+  have h := evalY_int_rel env hp2 e hs
   cases h' : Spec.evalGo env.iota e with
   | ok gv => exact Or.inl ⟨gv, rfl⟩
   | reject => exact Or.inr rfl
